@@ -16,11 +16,13 @@ func init() {
 		Rule: "payloader side: one case = (MTU, SkipAggregation, AddDONL, 1-3 (thorough 4) NAL units: type, layer id, TID, size relative to the MTU, start-code length); parser side: one case = one payload of one of the four RFC 7798 structures from the reference encoder with every truncation; complete bit-field domains are swept inside executions; non-trivial = a unit is fragmented or aggregated / the payload is accepted",
 		Assumptions: []string{
 			"unit types {0,1,19,32,33,34,39,47}, (layer,TID) in {(0,1),(1,7),(63,1)}, F = 0 (the parser rejects F = 1 payloads as corrupted), sizes {3,4,MTU-3..MTU+1,2MTU+1} (>= 3 bytes: at least one payload byte); MTU {4,5,6,7,8,9,16,100}, with AddDONL only MTU >= 6 (below that no FU can carry a byte)",
+			"wide scenario: every NAL type 0-47 x every layer id 0-63 (TID 1) and every TID 1-7 alone and next to a small unit; units of 300, 257*(MTU-3)+2 (more than 256 FUs), 66000 bytes for MTU {6,100,1200,65535}; all sequences of 5-7 units over {3B, MTU-2 B, MTU+1 B} with alternating layer ids; aggregation of units of {3,255,256,257,300} bytes at MTU {600,1200,65535}; 64-600 small units in one call (more than 256 units per aggregation packet)",
 			"DON values are not demanded, only their placement; the payloader's DONL in every FU (pinned by an existing test) is a listed known finding matched by an exact defect model",
 			"a truncation must be rejected unless the prefix is itself well-formed under the reference parser",
 		},
 		Scenarios: []mc.Scenario{
 			{Name: "payloader-to-parser", Tiers: "qt", ShardDepth: 4, Run: c14Roundtrip},
+			{Name: "all-types-large-units-long-sequences", Tiers: "qt", ShardDepth: 3, Run: c14Wide},
 			{Name: "reference-encoder-to-parser", Tiers: "qt", ShardDepth: 3, Run: c14Parser},
 			{Name: "bit-field-domains", Tiers: "qt", ShardDepth: 2, Run: c14Fields},
 		},
@@ -173,6 +175,63 @@ func c14Reassemble(pieces []*c14Piece, stripDONL bool) ([][]byte, []int, error) 
 	return units, frags, nil
 }
 
+// c14Wide: dimensions the product scenario keeps small, taken one at a time.
+func c14Wide(c *mc.Ctx) {
+	addDONL := c.Bool()
+	skipAgg := c.Bool()
+	var units [][]byte
+	var codes []int
+	var mtu int
+	switch c.Pick(5) {
+	case 3: // aggregation of units around the 8-bit size boundary
+		mtu = mc.From(c, []int{600, 1200, 65535})
+		a := mc.From(c, []int{3, 255, 256, 257, 300})
+		b := mc.From(c, []int{3, 255, 256, 257, 300})
+		units = [][]byte{ref.H265Unit(32, 0, 1, a, 1), ref.H265Unit(33, 1, 2, b, 2), ref.H265Unit(1, 0, 1, mc.From(c, []int{3, 256, 70000}), 3)}
+		codes = []int{4, 3, 4}
+	case 4: // very many small units in one call
+		mtu = mc.From(c, []int{100, 4000, 65535})
+		n := mc.From(c, []int{64, 255, 256, 257, 258, 259, 260, 300, 600})
+		for i := 0; i < n; i++ {
+			units = append(units, ref.H265Unit(1, uint8(i%3), uint8(1+i%5), 3+i%2, byte(i)))
+			codes = append(codes, 3)
+		}
+	case 0:
+		mtu = mc.From(c, []int{6, 9, 100})
+		typ := uint8(c.Pick(48))
+		layer, tid := uint8(0), uint8(1)
+		if v := c.Pick(70); v < 64 {
+			layer = uint8(v)
+		} else {
+			tid = uint8(v - 63 + 1)
+		}
+		size := mc.From(c, []int{3, mtu - 1, mtu + 1, 3*mtu + 1})
+		units = [][]byte{ref.H265Unit(typ, layer, tid, size, 3)}
+		codes = []int{3 + c.Pick(2)}
+		if c.Bool() {
+			units = append(units, ref.H265Unit(1, 2, 3, 3, 4))
+			codes = append(codes, 4)
+		}
+	case 1:
+		mtu = mc.From(c, []int{6, 100, 1200, 65535})
+		size := mc.From(c, []int{300, 257*(mtu-3) + 2, 66000})
+		if size > 700*mtu {
+			return // bounds the number of fragments per case
+		}
+		units = [][]byte{ref.H265Unit(19, 1, 1, size, 5), ref.H265Unit(1, 0, 2, 3, 6)}
+		codes = []int{4, 3}
+	case 2:
+		mtu = mc.From(c, []int{8, 40})
+		n := 5 + c.Pick(3)
+		for i := 0; i < n; i++ {
+			size := mc.From(c, []int{3, mtu - 2, mtu + 1})
+			units = append(units, ref.H265Unit(1, uint8(i%2), uint8(1+i%3), size, byte(i*11)))
+			codes = append(codes, 3+i%2)
+		}
+	}
+	c14Core(c, mtu, addDONL, skipAgg, units, codes)
+}
+
 func c14Roundtrip(c *mc.Ctx) {
 	addDONL := c.Bool()
 	mtus := []int{4, 5, 6, 7, 8, 9, 16, 100}
@@ -213,6 +272,10 @@ func c14Roundtrip(c *mc.Ctx) {
 		units = append(units, ref.H265Unit(t, lt.layer, lt.tid, sz, byte(i*37)))
 		codes = append(codes, code)
 	}
+	c14Core(c, mtu, addDONL, skipAgg, units, codes)
+}
+
+func c14Core(c *mc.Ctx, mtu int, addDONL, skipAgg bool, units [][]byte, codes []int) {
 	desc := func() string {
 		s := fmt.Sprintf("mtu=%d AddDONL=%v SkipAggregation=%v units:", mtu, addDONL, skipAgg)
 		for i, u := range units {
